@@ -332,9 +332,10 @@ pub fn handle_spop(storage: &Arc<StorageEngine>, db: usize, parts: &[RespFrame])
     let count = if parts.len() == 3 {
         match &parts[2] {
             RespFrame::BulkString(Some(bytes)) => {
-                match String::from_utf8_lossy(bytes).parse::<usize>() {
-                    Ok(n) => n,
-                    Err(_) => return Ok(RespFrame::error("ERR value is not an integer or out of range")),
+                // A count is a non-negative 64-bit signed integer, as every other integer argument
+                match String::from_utf8_lossy(bytes).parse::<i64>() {
+                    Ok(n) if n >= 0 => n as usize,
+                    _ => return Ok(RespFrame::error("ERR value is not an integer or out of range")),
                 }
             }
             _ => return Ok(RespFrame::error("ERR invalid count format")),
